@@ -646,12 +646,13 @@ static void check_c11(const TypeOps& t) {
     for (auto& o : h) hs += opname(o) + ";";
     for (auto& o : ops) {
       auto idf = CASE_ID("C11|" + t.name + "|" + hs + opname(o));
-      if (!selected(idf)) continue;
+      // replay mode still walks the whole search (the frontier must be rebuilt) but reports only the requested case
+      const bool report = selected(idf);
       if (out_of_time()) { R.add("incomplete"); return; }
-      progress(idf());
+      if (R.only.empty()) progress(idf());
       Obj obj(t);
       for (auto& p : h) apply(obj, p, "", false);
-      bool ok = apply(obj, o, hs, true);
+      bool ok = apply(obj, o, hs, report);
       R.counters["transitions"]++;
       R.counters["evaluations"]++;
       if (o.kind == 'R') R.counters["reads_into_used_state"] += h.empty() ? 0 : 1;
@@ -662,7 +663,7 @@ static void check_c11(const TypeOps& t) {
         Obj again(t);
         for (auto& p : h) apply(again, p, "", false);
         apply(again, o, hs, false);
-        if (canon(again) != c)
+        if (canon(again) != c && report)
           R.viol("C11|nondeterministic-state|" + shape(t.sch), idf(), "same history produced two different states (uninitialised data?)",
                  "{\"type\":" + jstr(t.name) + ",\"history\":" + jstr(hs + opname(o)) + "}");
       }
